@@ -70,7 +70,11 @@ func ReplaceColumn(oldName, newName string) Rule {
 
 // AddSelectStar returns a Rule that adds * to the SELECT columns.
 func AddSelectStar() Rule {
-	return AddColumn(&ast.Identifier{Name: "*"})
+	return RuleFunc(func(stmt ast.Statement) error {
+		// a node of its own for every statement the rule is applied to: a tree owns its nodes
+		// (releasing one rewritten tree must not clear the * of another)
+		return AddColumn(&ast.Identifier{Name: "*"}).Apply(stmt)
+	})
 }
 
 // columnMatches checks if a column expression matches the given name.
